@@ -282,12 +282,21 @@ def _subblocks(rng, snap, dis, lay, bctl, start, end, annotate):
             L.append('M %d%s %s' % (a, rng.choice(['', '', ',,1']), textgen.sentence(rng, 2, 10)))
             lay.features.add('M-directive')
             pend_m = a
+        iua = False
         if annotate >= 2 and a > start and rng.random() < 0.1:
             textgen.mid_block_comment(rng, lay, a)
             pend_m = None
+            if rng.random() < 0.5:
+                # an instruction-level @ignoreua on the commented instruction right below a mid-block comment
+                iua = True
+                if not comment:
+                    comment = ' ' + textgen.instruction_comment(rng)
         dname = sctl if (sctl != default or rng.random() < 0.5) else ' '
         line = '%s %s%s%s' % (dname, _addr(rng, a), (',' + spec) if spec else '', comment)
         L.append(line)
+        if iua:
+            L.append('@ %d ignoreua:i' % a)
+            lay.features.add('ignoreua:i')
         lay.subblocks += 1
         lay.features.add('sub-' + sctl)
         if annotate >= 2:
